@@ -153,6 +153,18 @@ def check_case(chk, st, tr, F, interp, with_table, system, cell_opt, rng):
         return
     except Exception as e:
         chk.obligation(name, "sat", kind="identity", detail="callback raises %s: %s" % (type(e).__name__, e))
+        if not with_table:
+            # the real command without a static table (with the crystal-system / cell-mass options of this case)
+            from click.testing import CliRunner
+            ex_ = os.path.join(REPO, "examples", "akimotoite")
+            args = [os.path.join(ex_, "input01"), "-I", interp, "-n", "11"] + (["-s", system] if system else []) + (["--cellmass", "123.25"] if cell_opt else [])
+            with warnings.catch_warnings():
+                warnings.simplefilter("ignore")
+                r = CliRunner().invoke(st.main, args)
+            if r.exit_code != 0:
+                chk.violation("run-static:raises-without-table[%s]" % ("system" if system else "plain"), "cij run-static INPUT01 %s (no static table) fails: %r"
+                              % (" ".join(args[1:]), r.exception), dict(args=args[1:]))
+                return
         replay_cli(chk, rng, "callback raises %s: %s" % (type(e).__name__, e))
         return
     U = env.U
@@ -363,7 +375,7 @@ def main():
     Z.reset_log()
     rng = random.Random(seed() + 18)
     cases = [("none", True, None, False), ("volume", True, None, False), ("pressure", True, None, False),
-             ("pressure", False, None, False), ("volume", True, "cubic", True)]
+             ("pressure", False, None, False), ("volume", True, "cubic", True), ("volume", False, "cubic", True)]
     if tier != "quick":
         cases += [("none", False, None, False), ("volume", False, None, False), ("none", True, "cubic", False), ("pressure", True, "cubic", True),
                   ("none", True, None, True)]
